@@ -3,6 +3,8 @@ step the active (heap) and idle halves must partition the server set, and adjust
 import itertools
 import random
 
+import gevent
+
 from scales.loadbalancer import aperture as A
 from scales.loadbalancer.serverset import StaticServerSetProvider
 from scales.constants import ChannelState, SinkProperties
@@ -62,6 +64,9 @@ def replay_aperture(w, rec):
   rnd = random.Random(7)
   hists = list(itertools.product(ops, repeat=3))
   rnd.shuffle(hists)
+  # always included: grow, lose an active member's connection, drain (contraction prefers the dead member)
+  hists = [(('hot', None), ('down', None), ('cold', None)), (('hot', None), ('hot', None), ('down', None), ('cold', None), ('cold', None)),
+           (('join', 'c'), ('hot', None), ('down', None), ('cold', None))] + hists
   for min_size, max_size in ((1, 2), (2, 3), (1, 4)):
     for initial in (['a'], ['a', 'b', 'c'], ['a', 'b', 'c', 'd']):
       for hist in hists[:120]:
@@ -95,6 +100,8 @@ def replay_aperture(w, rec):
           except Exception as ex:
             bad.append('min %d max %d initial %r history %r: %s raised %s: %s' % (min_size, max_size, initial, hist, op, type(ex).__name__, ex))
             break
+          gevent.sleep(0)          # let completion callbacks run (they clear the pending-endpoint marks)
+          gevent.sleep(0)
           v = _violations(sink, ref)
           if v:
             bad.append('min %d max %d initial %r after %r: %s' % (min_size, max_size, initial, hist, v[0]))
